@@ -50,7 +50,9 @@ theorem seekR_spec (L : Layout b kvs off R rs) {q0 q1 : Nat} (h01 : q0 < q1) (hq
   · unfold BlockR.seekR
     rw [hs]
     simp only
-    rw [L.roff _ (by omega)]
+    have hlen : ¬ (if s + q0 - 1 < q0 then q0 else s + q0 - 1) ≥ b.restartsLen := by
+      rw [L.rlen]; omega
+    rw [if_neg hlen, L.roff _ (by omega)]
   · intro hlt
     have hs2 : 2 ≤ s := by
       split at hlt <;> omega
